@@ -20,7 +20,8 @@ message reaches sc_write(Busy) + netw_send and then the eviction attempt; (e) PA
 fail-safe expiry; PaseResponder::handle clears the in-progress marker on every failing path.
 """
 CLAUSES = ['a: reserved session slots released on drop unless completed', 'b: rendezvous guards armed without an await gap', 'c: eviction skips reserved sessions and sessions with exchanges',
-           'd: busy answer when the session table is full', 'e: PASE sessions and the in-progress marker are purged']
+           'd: busy answer when the session table is full', 'e: PASE sessions and the in-progress marker are purged',
+           'f: the dropped-exchange sweep reaches every dropped exchange']
 NOT_DECIDED = ['quiescence: every slot free again after traffic stops', 'a new legitimate handshake succeeds as soon as one session is idle', 'table sizes from the smallest configuration upwards']
 MIN_OBLIGATIONS = {'q': 22, 'd': 22, 'r': 22}
 
@@ -95,22 +96,55 @@ def check(R):
     # ---- c --------------------------------------------------------------------
     with R.clause('c'):
         ge = R.body(SESSIONS + '::get_session_for_eviction')
-        ok1, why1 = prims.field_influences_result(ge, 'reserved:' + SESS)
-        R.expect('P9', ge.fn, 'eviction candidates exclude reserved sessions', ok1, why1, why1)
-        allc = [t for t in ge.calls() if t.d.get('f', '').endswith('Iterator::all')]
-        okx = any(mentions(prims.sources(ge, t.d['a'][0], through={'core::slice::<impl [T]>::iter'}), 'exchanges') for t in allc)
-        R.expect('P9', ge.fn, 'eviction candidates have no live exchange (exchanges.iter().all(is_none))', okx, 'all(Option::is_none)', 'exchanges not consulted')
-        # the candidate assignment is cut by both tests
-        lru = named_local(ge, 'lru_index')
-        somes = [i for i, j, s in ge.stmts() if s[1].get('op') == 'agg' and s[1].get('var') == 'Some' and len(s[0]) == 1]
-        somes = [i for i in somes if any(True for _ in [1])]
-        te, fe = field_bool_edges(ge, 'reserved:' + SESS)
-        cand = [i for i, j, s in ge.stmts() if len(s[0]) == 1 and s[0][0] in lru and s[1].get('op') != 'use' or (len(s[0]) == 1 and s[0][0] in lru and s[1].get('op') == 'use' and 'k' not in s[1]['a'][0])]
-        cand = sorted(set(cand) - {0})
-        if cand and fe:
-            R.cut('P2', ge, 'select a session as eviction candidate', cand, 'the session is not reserved', fe)
-        if cand and allc:
-            R.cut('P2', ge, 'select a session as eviction candidate', cand, 'the session has no live exchange', lambda: prims.track_result(F, ge, allc[0]).success)
+        # every place that accepts a session as eviction candidate - the `Some(index)` assignment of a scan loop, or the `true` result of a
+        # predicate closure handed to position / find / filter - is cut by both tests (whatever the local variables are called)
+        n_acc = 0
+        for b in [ge] + list(F.nested(ge.fn)):
+            reads = any(isinstance(x, str) and x.split(':')[0] in ('.reserved', '.expired', '.last_use') and x.endswith(':' + SESS)
+                        for i_, j_, st in b.stmts() for pl in ([st[0]] + [op_place(a) or [] for a in st[1].get('a', ())] + [st[1].get('pl') or []]) for x in pl[1:])
+            if not reads:
+                continue
+            # a def of the result whose VALUE is the test itself (`.. && !s.reserved`, `.. && exchanges.iter().all(..)`) needs no branch
+            acc_res = acc_all = None
+            if b.kind == 'closure' and b.rec.get('ret') == 'bool':
+                acc_res, acc_all = [], []
+                for (bb, kind, pl) in prims.result_defs(b):
+                    if kind == 'const' and pl == 0:
+                        continue
+                    is_not_reserved = kind == 'expr' and pl.get('op') == 'un' and pl.get('u') == 'Not' and any(x[0] == 'field' and x[1] == 'reserved:' + SESS for x in prims.sources(b, pl['a'][0]))
+                    is_all = kind == 'call' and pl.get('f', '').endswith('Iterator::all') and mentions(prims.sources(b, pl['a'][0], through={'core::slice::<impl [T]>::iter'}), 'exchanges')
+                    if not is_not_reserved:
+                        acc_res.append(bb)
+                    if not is_all:
+                        acc_all.append(bb)
+                acc = sorted(set(acc_res) | set(acc_all))
+            else:
+                acc = sorted({i_ for i_, j_, st in b.stmts() if st[1].get('op') == 'agg' and st[1].get('var') == 'Some' and len(st[0]) == 1
+                              and b.local_ty(st[0][0]) in ('core::option::Option<usize>',) and not b.is_cleanup(i_)})
+                acc_res = acc_all = acc
+            if not acc and not (b.kind == 'closure' and b.rec.get('ret') == 'bool'):
+                continue
+            n_acc += 1
+            te, fe = field_bool_edges(b, 'reserved:' + SESS)
+            if acc_res:
+                R.cut('P2', b, 'accept a session as eviction candidate', acc_res, 'the session is not reserved', fe)
+            else:
+                R.ok('P2', b.fn, 'accept a session as eviction candidate cut-by the session is not reserved', 'the accepting result is `!reserved` itself')
+            alls = [t for t in b.calls() if t.d.get('f', '').endswith('Iterator::all') and mentions(prims.sources(b, t.d['a'][0], through={'core::slice::<impl [T]>::iter'}), 'exchanges')]
+
+            def no_exch(b=b, alls=alls):
+                if not alls:
+                    from facts import GuardMissing
+                    raise GuardMissing(f'{b.fn}: no exchanges.iter().all(..) test')
+                e = set()
+                for t in alls:
+                    e |= prims.track_result(F, b, t).success
+                return e
+            if acc_all:
+                R.cut('P2', b, 'accept a session as eviction candidate', acc_all, 'the session has no live exchange (exchanges.iter().all(is_none))', no_exch)
+            else:
+                R.ok('P2', b.fn, 'accept a session as eviction candidate cut-by the session has no live exchange (exchanges.iter().all(is_none))', 'the accepting result is the all(is_none) value itself')
+        R.floor('places that accept an eviction candidate', n_acc, 1)
 
     # ---- d --------------------------------------------------------------------
     with R.clause('d'):
@@ -164,3 +198,11 @@ def check(R):
         hi = async_body(R, 'sc::pase::responder::PaseResponder::handle_inner')
         clr = call_bbs(hi, 'sc::pase::responder::PaseResponder::clear_session_timeout')
         R.floor('clear_session_timeout in handle_inner', len(clr), 1)
+
+    # ---- f --------------------------------------------------------------------
+    with R.clause('f'):
+        # exchange slots of dropped exchanges are freed: the sweep's two lookups cover every dropped exchange (shared with C10-c2),
+        # and on both arms the slot is released (the session is evicted, or exchanges[exch_index] = None)
+        from C10 import dropped_partition_rule
+        dropped_partition_rule(R)
+
